@@ -708,6 +708,8 @@ impl RWA {
 
         Base::spend_allowance(e, from, spender, amount);
 
+        Self::validate_transfer(e, from, to, amount);
+
         Base::update(e, Some(from), Some(to), amount);
 
         let compliance_client = ComplianceClient::new(e, &Self::compliance(e));
